@@ -156,42 +156,71 @@ def fillFree {α} : List (Option α) → List α → List (Option α) × List α
   | none :: rest, [] => (none :: rest, [])
   | none :: rest, x :: pending => let (r, p) := fillFree rest pending; (some x :: r, p)
 
+/-- directed links: each goes to the slot its direction names; out of range or taken is an error -/
+def place (n : Nat) (rname : String) : List (Nat × Link) → List (Option Link) → D (List (Option Link))
+  | [], acc => pure acc
+  | (i, l) :: rest, acc =>
+    if i ≥ n then throw (.portConflict "IndexError: list index out of range")
+    else if (acc.getD i none).isSome then throw (.portConflict s!"Trying to set link #{i} of {rname}, already taken")
+    else place n rname rest (setSlot acc i l)
+
+/-- the outgoing counterpart of an undirected incoming edge -/
+def reverseLink (g : Graph) (e : Edge) : D Link :=
+  match g.findEdge e.dst e.src with
+  | some r => pure (linkOf g r)
+  | none => throw (.internal "KeyError: reverse edge")
+
+def routerId (d : Desc) (ids : Ids) (name : String) : D (Option NodeId) :=
+  if d.algo == .XY then
+    match ids.idOf name with
+    | some v => pure (some v)
+    | none => throw (.internal "KeyError id")
+  else pure none
+
+/-- directed incoming links of a router as (slot, link) -/
+def dirInList (g : Graph) (r : String) : List (Nat × Link) :=
+  ((g.edgesTo r).filter fun e => e.dstDir.isSome).map fun e => (e.dstDir.getD 0, linkOf g e)
+def dirOutList (g : Graph) (r : String) : List (Nat × Link) :=
+  ((g.edgesFrom r).filter fun e => e.srcDir.isSome).map fun e => (e.srcDir.getD 0, linkOf g e)
+def nonDirIn (g : Graph) (r : String) : List Edge := (g.edgesTo r).filter fun e => e.dstDir.isNone
+
+def numEdgesOf (d : Desc) (g : Graph) (nd : Node) : Nat :=
+  match (d.routers.getD nd.descIdx default).degree with
+  | some k => k
+  | none => (dirInList g nd.name).length + (nonDirIn g nd.name).length
+
+def compileRouter (d : Desc) (g : Graph) (ids : Ids) (nd : Node) : D Router :=
+  if ((g.edgesTo nd.name) ++ (g.edgesFrom nd.name)).any (fun e => !e.hasDirs) then throw (.internal "KeyError dst_dir") else
+  match place (numEdgesOf d g nd) nd.name (dirInList g nd.name) (List.replicate (numEdgesOf d g nd) none) with
+  | .error e => .error e
+  | .ok incD =>
+  match place (numEdgesOf d g nd) nd.name (dirOutList g nd.name) (List.replicate (numEdgesOf d g nd) none) with
+  | .error e => .error e
+  | .ok outD =>
+  -- undirected: outgoing edges in the order of their incoming counterparts
+  match (nonDirIn g nd.name).mapM (reverseLink g) with
+  | .error e => .error e
+  | .ok nonDirOut =>
+    if !(fillFree incD ((nonDirIn g nd.name).map (linkOf g))).2.isEmpty || !(fillFree outD nonDirOut).2.isEmpty then
+      throw (.portConflict "AssertionError: not enough free ports")
+    else
+      match routerId d ids nd.name with
+      | .error e => .error e
+      | .ok id => .ok { name := nd.name, incoming := (fillFree incD ((nonDirIn g nd.name).map (linkOf g))).1,
+                        outgoing := (fillFree outD nonDirOut).1, degree := numEdgesOf d g nd, id }
+
 def compileRouters (d : Desc) (g : Graph) (ids : Ids) : D (List Router) :=
-  (g.nodesOfKind .router).mapM fun nd => do
-    let rt := d.routers.getD nd.descIdx default
-    let ins := g.edgesTo nd.name
-    let outs := g.edgesFrom nd.name
-    if (ins ++ outs).any (fun e => !e.hasDirs) then throw (.internal "KeyError dst_dir")
-    let dirIn := ins.filter (·.dstDir.isSome)
-    let dirOut := outs.filter (·.srcDir.isSome)
-    let nonDirIn := ins.filter (·.dstDir.isNone)
-    let numEdges := match rt.degree with
-      | some k => k
-      | none => dirIn.length + nonDirIn.length
-    let incoming ← dirIn.foldlM (fun (acc : List (Option Link)) e => do
-      let i := e.dstDir.getD 0
-      if i ≥ numEdges then throw (.portConflict "IndexError: list index out of range")
-      if (acc.getD i none).isSome then throw (.portConflict s!"Trying to set incoming link #{i} of {nd.name}")
-      pure (setSlot acc i (linkOf g e))) (List.replicate numEdges none)
-    let outgoing ← dirOut.foldlM (fun (acc : List (Option Link)) e => do
-      let i := e.srcDir.getD 0
-      if i ≥ numEdges then throw (.portConflict "IndexError: list index out of range")
-      if (acc.getD i none).isSome then throw (.portConflict s!"Trying to set outgoing link #{i} of {nd.name}")
-      pure (setSlot acc i (linkOf g e))) (List.replicate numEdges none)
-    -- undirected: outgoing edges in the order of their incoming counterparts
-    let nonDirOut ← nonDirIn.mapM fun e =>
-      match g.findEdge e.dst e.src with
-      | some r => pure (linkOf g r)
-      | none => throw (.internal "KeyError: reverse edge")
-    let (incoming, restIn) := fillFree incoming (nonDirIn.map (linkOf g))
-    let (outgoing, restOut) := fillFree outgoing nonDirOut
-    if !restIn.isEmpty || !restOut.isEmpty then throw (.portConflict "AssertionError: not enough free ports")
-    let id ← if d.algo == .XY then
-        match ids.idOf nd.name with
-        | some v => pure (some v)
-        | none => throw (.internal "KeyError id")
-      else pure none
-    pure { name := nd.name, incoming, outgoing, degree := numEdges, id }
+  (g.nodesOfKind .router).mapM (compileRouter d g ids)
+
+/-- graph invariants the slotting theorem (Props/C05Full.lean) assumes; evaluated by the driver on
+    the graph of every explored description -/
+def pairedGraphB (g : Graph) : Bool :=
+  (g.edges.all fun e => e.kind != .link || g.edges.any fun e' =>
+    e'.src == e.dst && e'.dst == e.src && e'.srcDir == e.dstDir && e'.dstDir == e.srcDir) &&
+  g.edges.all fun e => g.hasNode e.src
+
+def onlyLinksAtRoutersB (g : Graph) : Bool :=
+  (g.nodesOfKind .router).all fun nd => g.edges.all fun e => (e.src != nd.name && e.dst != nd.name) || e.kind == .link
 
 structure Compiled where
   g : Graph
